@@ -224,14 +224,18 @@ func c03PhylipHeader(in []byte) (n, l int64, ok bool) {
 // declare its size.
 func c03PhylipHeaderLines(in []byte) (hs [][2]int64) {
 	for _, line := range bytes.Split(in, []byte{'\n'}) {
-		f := bytes.Fields(line)
-		if len(f) != 2 {
-			continue
-		}
-		n, e1 := strconv.ParseInt(string(f[0]), 10, 64)
-		l, e2 := strconv.ParseInt(string(f[1]), 10, 64)
-		if e1 == nil && e2 == nil {
-			hs = append(hs, [2]int64{n, l})
+		// a NUL inside the line is read as nothing or as a blank (NUL is an ordinary input byte, see the
+		// assumptions: how the lexers pass over it is not judged)
+		for _, v := range [][]byte{line, bytes.ReplaceAll(line, []byte{0}, nil), bytes.ReplaceAll(line, []byte{0}, []byte{' '})} {
+			f := bytes.Fields(v)
+			if len(f) != 2 {
+				continue
+			}
+			n, e1 := strconv.ParseInt(string(f[0]), 10, 64)
+			l, e2 := strconv.ParseInt(string(f[1]), 10, 64)
+			if e1 == nil && e2 == nil {
+				hs = append(hs, [2]int64{n, l})
+			}
 		}
 	}
 	return
